@@ -67,3 +67,36 @@ func init() {
 		return 0
 	}
 }
+
+func init() {
+	// vcheck probedir <dir> : start a server on a copy of dir (all files, incl. luahelper.json) and print diagnostics or the crash
+	special["probedir"] = func(args []string) int {
+		c := NewCtx("probe", "quick")
+		defer os.RemoveAll(c.Tmp)
+		files := map[string]string{}
+		filepath.Walk(args[0], func(p string, info os.FileInfo, err error) error {
+			if err == nil && !info.IsDir() {
+				b, _ := os.ReadFile(p)
+				rel, _ := filepath.Rel(args[0], p)
+				files[rel] = string(b)
+			}
+			return nil
+		})
+		ws := c.NewWorkspace(files)
+		srv, err := StartServer(ServerOpts{Root: ws.Root})
+		if err != nil {
+			fmt.Println("start:", err)
+			if srv != nil {
+				fmt.Println(srv.StderrHead(3000))
+			}
+			return 1
+		}
+		defer srv.Close()
+		for u, ds := range srv.View() {
+			for _, d := range ds {
+				fmt.Println(ws.Rel(u), d.Range, d.Message)
+			}
+		}
+		return 0
+	}
+}
